@@ -363,6 +363,7 @@ class Ctx:
             'assumptions': assumptions or [],
             'wall_s': round(self.elapsed(), 2),
             'violations': len(self.violations),
+            'violation_summary': _summary(self.violations),
             'notes': self.notes,
         }
         with open(os.path.join(VERIF, 'evidence', self.prop + '.json'), 'w') as f:
@@ -376,6 +377,14 @@ class Ctx:
                  len(self.disagreements), len(self.violations), len(self.known_hits), self.elapsed()))
         sys.stdout.flush()
         return 1 if self.violations else 0
+
+
+def _summary(viols):
+    out = {}
+    for what, _ in viols:
+        k = what.split(':')[0][:60]
+        out[k] = out.get(k, 0) + 1
+    return out
 
 
 def broken_report(ctx, searched_what):
